@@ -143,14 +143,85 @@ def _function(fn, rebound, assigned) -> int:
     return done
 
 
+def _ordered(node, out, loops, depth_loops=0):
+    """pre-order list of (node, number of enclosing loops) in source order, nested scopes not entered"""
+    for ch in ast.iter_child_nodes(node):
+        if isinstance(ch, (ast.FunctionDef, ast.AsyncFunctionDef, ast.ClassDef, ast.Lambda)):
+            out.append((ch, depth_loops))
+            continue
+        out.append((ch, depth_loops))
+        _ordered(ch, out, loops, depth_loops + (1 if isinstance(ch, (ast.For, ast.AsyncFor, ast.While)) else 0))
+
+
+def _handover_copies(fn) -> int:
+    """`x = y` where the local y is never mentioned again and x is not mentioned before (the parameter binding of an inlined
+    helper whose argument is a variable the caller is done with): x IS y from there on - every mention of x is renamed to y and
+    the copy dropped.  Only outside loops (a copy in a loop re-initialises x each round), only plain locals, neither captured
+    by a nested function."""
+    done = 0
+    for _round in range(8):
+        seq: list = []
+        _ordered(fn, seq, None)
+        pos = {id(n): i for i, (n, _d) in enumerate(seq)}
+        captured: set[str] = set()
+        for n, _d in seq:
+            if isinstance(n, (ast.FunctionDef, ast.AsyncFunctionDef, ast.ClassDef, ast.Lambda)):
+                captured |= {y.id for y in ast.walk(n) if isinstance(y, ast.Name)}
+        params = {a.arg for a in fn.args.args + fn.args.kwonlyargs + fn.args.posonlyargs}
+        mentions: dict[str, list] = {}
+        for n, _d in seq:
+            if isinstance(n, ast.Name):
+                mentions.setdefault(n.id, []).append(n)
+            elif isinstance(n, ast.ExceptHandler) and n.name:
+                mentions.setdefault(n.name, []).append(n)
+            elif isinstance(n, (ast.Global, ast.Nonlocal)):
+                for nm in n.names:
+                    captured.add(nm)
+        change = None
+        for n, d in seq:
+            if not (type(n) is ast.Assign and d == 0 and len(n.targets) == 1 and isinstance(n.targets[0], ast.Name) and isinstance(n.value, ast.Name)):
+                continue
+            x, y = n.targets[0].id, n.value.id
+            if x == y or x in captured or y in captured or x in params or not x.startswith("_inl"):
+                continue
+            if y not in params and not any(isinstance(m, ast.Name) and isinstance(m.ctx, ast.Store) for m in mentions.get(y, [])):
+                continue  # not a local of this function (a global, a builtin)
+            here = pos[id(n)]
+            end = here + sum(1 for _ in ast.walk(n)) - 1
+            if any(pos[id(m)] > end for m in mentions.get(y, []) if m is not n.value):
+                continue  # y is mentioned again later
+            if any(pos[id(m)] < here for m in mentions.get(x, [])):
+                continue
+            change = (n, x, y)
+            break
+        if change is None:
+            break
+        n, x, y = change
+        for m in mentions.get(x, []):
+            if isinstance(m, ast.Name):
+                m.id = y
+            else:
+                m.name = y
+        # drop the copy (now `y = y`)
+        for holder in ast.walk(fn):
+            for field in ("body", "orelse", "finalbody"):
+                b = getattr(holder, field, None)
+                if isinstance(b, list) and n in b:
+                    b[b.index(n)] = ast.copy_location(ast.Pass(), n)
+        done += 1
+    return done
+
+
 def inline_stable_aliases(trees: dict[str, ast.Module]) -> dict:
     rebound = _rebound_attrs(trees)
     if "*" in rebound:
         return {"stable_aliases": 0}
     assigned = _assigned_attrs(trees)
-    n = 0
+    n = h = 0
     for t in trees.values():
         for fn in ast.walk(t):
             if isinstance(fn, (ast.FunctionDef, ast.AsyncFunctionDef)):
                 n += _function(fn, rebound, assigned)
-    return {"stable_aliases": n}
+                if any(isinstance(x, ast.Name) and x.id.startswith("_inl") for x in ast.walk(fn)):
+                    h += _handover_copies(fn)
+    return {"stable_aliases": n, "handover_copies": h}
